@@ -147,7 +147,7 @@ def gen_views(rng, tier, out):
         ops = [('sP', sh['P']), ('sW', sh['w']), ('sP', G.points(rng, n + rng.randint(1, 3), dim)), ('gP', None), ('gW', None)]
         if n - 1 >= p + 1:
             ops += [('sW', G.weights(rng, n - 1)), ('gP', None), ('gW', None), ('gPw', None)]
-        out.append(views_case('C', sh['deg'], sh['size'], ops, tags=('length-change',)))
+        out.append(views_case('C', sh['deg'], sh['size'], ops, tags=('length-change', 'diagnostic')))
     # fixed small F-12a probe (read, reverse, read) first in every run
     out.insert(0, views_case('C', [2], [], [('sPw', [[F(0), F(0), F(1)], [F(2), F(6), F(2)], [F(1), F(0), F(1, 2)]]),
                                            ('gP', None), ('rev', None), ('gP', None), ('gW', None), ('gPw', None)]))
@@ -167,7 +167,7 @@ def gen_views(rng, tier, out):
             ops = [('sP', P), ('gP', None)]
         else:
             ops = [('sPw', [pt[:2] for pt in sh['P']]), ('gPw', None)]
-        out.append(views_case('C', sh['deg'], sh['size'], ops, tags=('malformed',)))
+        out.append(views_case('C', sh['deg'], sh['size'], ops, tags=('malformed', 'diagnostic')))
 
 
 def mk_mut(rng, m, n, dim):
@@ -622,7 +622,7 @@ def oracle_malformed(c):
         if bad:
             try:
                 run_grid(d, lambda g: None)
-            except (ValueError, TypeError):
+            except Exception:
                 return None
             return "GridWeighted.weight accepts %s (a non-positive weight / wrong length)" % (
                 show_list(bad[0][1]) if bad[0][0] == 'w' else fr(bad[0][1]))
